@@ -679,15 +679,27 @@ def run_invariant_loop(interp, st, env, n, bind_at, spec, label="loop"):
     cx = ctx()
     from ..interp import Break, Continue
     objs = {}
+    # the contract names its state by role; a spec may say which program variable plays a role (found by the object it holds), so that a renamed
+    # local does not put the loop out of reach
+    alias = spec.resolve(env) if hasattr(spec, "resolve") else {}
+    if alias:
+        class _AliasEnv:
+            def __init__(self, e): self.e = e
+            def has(self, k): return self.e.has(alias.get(k, k))
+            def get(self, k): return self.e.get(alias.get(k, k))
+            def __getattr__(self, k): return getattr(self.e, k)
+        env_view = _AliasEnv(env)
+    else:
+        env_view = env
     scalars = dict(getattr(spec, "scalars", {}) or {})  # loop-carried numbers (name -> "Int" | "Real"): havocked per iteration like the arrays
     for v in spec.state:
-        o = env.get(v) if env.has(v) else None
+        o = env_view.get(v) if env_view.has(v) else None
         if isinstance(o, list) and len(o) <= 1 and spec.state[v] == "Bool":
             # a Python list (empty or with one initial element) that the loop only appends to: represented by the set of positions filled so far;
             # the element appended in iteration k lands at position len(initial list) + k
             init = list(o)
             o = AppendLog(v, init)
-            _set(env, v, o)
+            _set(env, alias.get(v, v), o)
         if not isinstance(o, FnArr):
             raise Unsupported(f"invariant loop: state variable {v} is not an index-function array/set")
         objs[v] = o
@@ -700,6 +712,7 @@ def run_invariant_loop(interp, st, env, n, bind_at, spec, label="loop"):
         if dec == "Bool":
             return lambda i, fn=fn: fn(i) != 0
         raise Unsupported(f"invariant loop: state variable {v} has element type {act}, the contract expects {dec}")
+    spec.bound_objects = objs  # role -> state object, for the contract's postcondition
     S_init = {v: view(v, o.f) for v, o in objs.items()}
     for sname in scalars:
         S_init[sname] = to_z3(env.get(sname))
@@ -732,7 +745,7 @@ def run_invariant_loop(interp, st, env, n, bind_at, spec, label="loop"):
     except Break:
         raise Unsupported("break inside a loop verified by invariant")
     for v in spec.state:
-        if env.get(v) is not objs[v]:
+        if env_view.get(v) is not objs[v]:
             raise Unsupported(f"invariant loop: state variable {v} was rebound inside the loop")
     S1 = {v: view(v, o.f) for v, o in objs.items()}
     for sname in scalars:
@@ -759,7 +772,7 @@ def run_invariant_loop(interp, st, env, n, bind_at, spec, label="loop"):
     for node in ast.walk(ast.Module(body=st.body, type_ignores=[])):
         if isinstance(node, (ast.Assign, ast.AugAssign)):
             for t in (node.targets if isinstance(node, ast.Assign) else [node.target]):
-                if isinstance(t, ast.Name) and t.id not in spec.state and t.id not in scalars and env.has(t.id):
+                if isinstance(t, ast.Name) and t.id not in spec.state and t.id not in set(alias.values()) and t.id not in scalars and env.has(t.id):
                     _set(env, t.id, Poison(f"loop-local {t.id} after an invariant loop"))
 
 
